@@ -232,6 +232,12 @@ class Harness:
     self.log = []
     self.trigger = trigger
     self.cur_round = 0
+    # a new incarnation is a new process: module-level state of the checkpointing modules does not survive it
+    import importlib  # pylint: disable=g-import-not-at-top
+    from fedjax.core import serialization as ser_mod  # pylint: disable=g-import-not-at-top
+    from fedjax.training import checkpoint as ckpt_mod  # pylint: disable=g-import-not-at-top
+    importlib.reload(ser_mod)
+    importlib.reload(ckpt_mod)
     cfg = self.fe.FederatedExperimentConfig(root_dir=self.root, num_rounds=nr, checkpoint_frequency=f,
                                             num_checkpoints_to_keep=k, eval_frequency=e)
     per, fin = self.make_evals()
